@@ -247,6 +247,28 @@ func ruleJoinerSignatures(c *Ctx, rule string) {
 	if ok {
 		ok = derivesFromCall(callArgs(vs)[0], "common/key.IdentityFromProto", 0)
 	}
+	// no iteration skips the validation: once a joiner has been converted, neither the next iteration nor a success return
+	// is reachable without passing the ValidSignature call (a cache hit that `continue`s is such a bypass)
+	if ok {
+		succRet := map[*ssa.BasicBlock]bool{}
+		for _, r := range successReturns(fn) {
+			succRet[r.Block()] = true
+		}
+		first := true
+		bypass := walkFeasible(idp.Block(), pctx{}, func(e edge) bool { return e.to() == vs.Block() }, func(b *ssa.BasicBlock) bool {
+			if first {
+				first = false
+				return false
+			}
+			return b == idp.Block() || succRet[b]
+		})
+		if vs.Block() == idp.Block() {
+			bypass = false
+		}
+		if bypass {
+			ok = false
+		}
+	}
 	c.Ok(rule, "every joiner's self-signature is validated, any failure rejects the proposal", c.P.Pos(fn.Pos()), ok, "loop over terms.Joining: IdentityFromProto and ValidSignature errors are returned")
 }
 
